@@ -83,7 +83,7 @@ def execute_plan(mod, plan, known_open, cap_s=60.0, keep_events=False):
         'digest': ctx.digest(), 'ticks': ctx.seq, 'violations': ctx.violations,
         'known_hits': dict(ctx.known_hits), 'probes': dict(ctx.probes), 'faults': dict(ctx.faults),
         'behaviours': sorted(ctx.behaviours), 'nontrivial': bool(ctx.nontrivial),
-        'harness': harness, 'components': sorted(ctx.components),
+        'harness': harness, 'components': sorted(ctx.components), 'notes': ctx.notes,
     }
     if keep_events:
         out['events'] = ctx.events
@@ -278,7 +278,9 @@ def run_check(prop, tier, verif_seed, n_runs=None, workers=None, wall_cap=None, 
     viol = []
     samples = []
     digest_all = []
+    notes = {}
     for o in outcomes:
+        notes.update(o.get('notes') or {})
         probes.update(o['probes'])
         faults.update(o['faults'])
         known_hits.update(o['known_hits'])
@@ -374,6 +376,7 @@ def run_check(prop, tier, verif_seed, n_runs=None, workers=None, wall_cap=None, 
                 'batch_digest': '%016x' % H(digest_all),
                 'seeds': {'VERIF_SEED': int(verif_seed), 'run_indices': [first_index, first_index + n_runs],
                           'run_seed_rule': "H('run', VERIF_SEED, property, tier, index)"},
+                'notes': notes,
                 'workers': workers, 'truncated_by_wall_cap': truncated,
                 'harness_problems': harness[:10],
             },
